@@ -47,6 +47,8 @@ namespace outer { namespace inner { class C { public: int f() { return 1; }; int
 int h(int a) try { if (a) { throw a; } return a + 1; } catch (...) { return (0); }
 void w(int k) { switch (k) { case 1: { k++; } break; default: { k--; break; } } for (;;) { if (k) { break; } } while (true) { k--; if (!k) break; } }
 bool b(int a, int c) { bool r = a == c; return a < c && r; }
+int lam(int x) { return [x]() { note(x); return x + 1; }(); }
+int lam2(int x) { auto f = [&](int y) { if (y) { return y; } return -y; }; throw [x] { return x; }(); }
 unsigned int u1; unsigned u2; long int l1; long l2;
 enum E { A, B, };
 """,
@@ -54,7 +56,8 @@ enum E { A, B, };
 namespace N { class C { int F(int a) { if (a > 0) { return 1; } else return 2; } void G() { for (;;) { break; } ; } } }
 """,
     "JAVA": """import z.Z; import a.A; import m.M;
-class C { int f(int a) { if (a > 0) { return 1; } else return 2; } void g() { for (;;) { break; } ; while (true) { break; } } }
+class C { int f(int a) { if (a > 0) { return 1; } else return 2; } void g() { for (;;) { break; } ; while (true) { break; } }
+  Runnable h() { return new Runnable() { public void run() { note(1); } }; } }
 """,
 }
 
@@ -172,7 +175,8 @@ def balanced(toks):
         if t in ("(", "[", "{"):
             st.append(t)
         elif t in pair:
-            if not st:
+            # pairs nest: a closer closes the innermost open bracket OF ITS OWN KIND ('( { ) }' is not balanced)
+            if not st or st[-1] != pair[t]:
                 return False
             st.pop()
     return not st
